@@ -29,6 +29,7 @@ import (
 	"runtime/pprof"
 	"sort"
 	"strings"
+	"sync"
 	"testing"
 	"testing/synctest"
 	"time"
@@ -162,12 +163,33 @@ func (p *prov) FilterStateUpdate(ctx context.Context, from, to uint64) ([]*l1.St
 func (p *prov) Close() { p.closed++ }
 
 type scriptSub struct {
-	errCh chan error
-	unsub int
+	errCh  chan error
+	unsub  int
+	failed bool
+	p      *prov
+	quit   chan struct{} // closed at teardown
 }
 
 func (s *scriptSub) Err() <-chan error { return s.errCh }
-func (s *scriptSub) Unsubscribe()      { s.unsub++ }
+
+// Unsubscribe of a subscription that has reported an error parks (first call only): the window between the client
+// reading the error and the subscription being torn down is a scheduling point of its own. What the explorer may do
+// there is push further items into the (old) sink. For the client this is indistinguishable from the legal real-node
+// execution "item pushed, then error raised, both pending, Go's select happens to take the error first" - a runtime
+// coin flip the explorer cannot steer directly. (The other outcome of that coin flip is the sequential order item,
+// error, which is explored anyway.)
+func (s *scriptSub) Unsubscribe() {
+	s.unsub++
+	if !s.failed || s.unsub > 1 {
+		return
+	}
+	c := &call{kind: 'u', reply: make(chan reply, 1)}
+	s.p.calls <- c
+	select {
+	case <-c.reply:
+	case <-s.quit:
+	}
+}
 
 // ---------------------------------------------------------------------------------------------------------------
 // world = generator view of the L1 chain + reference model + harness bookkeeping of the client's mode
@@ -181,6 +203,11 @@ type logRec struct {
 
 func hashOf(id int) felt.Felt { return felt.FromUint64[felt.Felt](uint64(0x1000 + id)) }
 func rootOf(id int) felt.Felt { return felt.FromUint64[felt.Felt](uint64(0x2000 + id)) }
+
+type pushedItem struct {
+	removed bool
+	l1      uint64
+}
 
 type violation struct {
 	key    string
@@ -219,6 +246,8 @@ type world struct {
 	chain      *blockchain.Blockchain
 	client     *l1.Client
 	done       chan error
+	quit       chan struct{}
+	pushed     []pushedItem // items pushed into the sink that the client has not read yet (oldest first)
 	emitted    []*core.L1Head
 	feedCh     <-chan *core.L1Head
 	storedID   int
@@ -283,8 +312,20 @@ func (w *world) enabled() []evt {
 	}
 	if c := w.pending; c != nil {
 		switch c.kind {
-		case 'c', 'g', 'w':
+		case 'c', 'g':
 			return []evt{{'o', 0}, {'x', 0}}
+		case 'w':
+			// While items the client has not read yet sit in the update channel, a failure whose retry sleep would
+			// swallow a poll tick is not offered: on return both the item and the tick would be ready and Go's select
+			// would flip a coin the explorer cannot control (replays would stop being deterministic). Both orders of
+			// item and tick are explored as sequential deliveries.
+			if w.unread() > 0 && w.t0set &&
+				int64(w.now().Add(resubDelay).Sub(w.t0)/pollInterval) > int64(w.leftSelect.Sub(w.t0)/pollInterval) {
+				return []evt{{'o', 0}}
+			}
+			return []evt{{'o', 0}, {'x', 0}}
+		case 'u':
+			return append([]evt{{'o', 0}}, w.itemEvents()...)
 		case 'l':
 			return []evt{{'L', 0}, {'L', 1}, {'x', 0}}
 		case 'f':
@@ -303,7 +344,19 @@ func (w *world) enabled() []evt {
 		return []evt{{'a', 0}}
 	}
 	// idle in the main select with a live subscription
-	out := []evt{{'a', 0}, {'E', 0}}
+	return append([]evt{{'a', 0}, {'E', 0}}, w.itemEvents()...)
+}
+
+func (w *world) unread() int {
+	if w.sink == nil {
+		return 0
+	}
+	return len(w.sink)
+}
+
+// itemEvents lists the subscription items the L1 node may deliver next (see enabled for the rules).
+func (w *world) itemEvents() []evt {
+	var out []evt
 	if w.items < w.c.n {
 		t := w.topAlive()
 		if w.lastU && t >= 0 && t == len(w.view)-1 {
@@ -405,7 +458,7 @@ func (w *world) apply(e evt) {
 		}
 	case 'o':
 		switch c.kind {
-		case 'c':
+		case 'c', 'u':
 			w.answer(reply{})
 		case 'g':
 			var evs []*l1.StateUpdate
@@ -419,7 +472,7 @@ func (w *world) apply(e evt) {
 			w.stats["filter_calls"]++
 			w.answer(reply{evs: evs})
 		case 'w':
-			w.sub = &scriptSub{errCh: make(chan error, 1)}
+			w.sub = &scriptSub{errCh: make(chan error, 1), p: w.p, quit: w.quit}
 			w.sink = c.sink
 			w.subscribed = true
 			if !w.t0set {
@@ -480,6 +533,10 @@ func (w *world) apply(e evt) {
 		}
 	case 'U':
 		id := w.addLog(e.A, true)
+		if w.pending != nil {
+			w.stats["items_pushed_during_error_handling"]++
+		}
+		w.pushed = append(w.pushed, pushedItem{false, w.view[id].l1})
 		w.sink <- w.su(id, false)
 	case 'R':
 		x := e.A
@@ -501,6 +558,9 @@ func (w *world) apply(e evt) {
 		}
 		w.items++
 		w.lastU = false
+		if w.pending != nil {
+			w.stats["items_pushed_during_error_handling"]++
+		}
 		switch {
 		case killed == 0:
 			w.stats["removals_noop"]++
@@ -509,10 +569,12 @@ func (w *world) apply(e evt) {
 		default:
 			w.stats["removals_multi"]++
 		}
+		w.pushed = append(w.pushed, pushedItem{true, x})
 		w.sink <- w.su(target, true)
 	case 'E':
 		w.subscribed = false
 		w.inExc, w.leftSelect = true, w.now()
+		w.sub.failed = true
 		w.sub.errCh <- errScripted
 		w.stats["sub_errors"]++
 	}
@@ -523,6 +585,9 @@ func (w *world) settle() {
 	predicted := w.excEnding && w.tickBuffered()
 	synctest.Wait()
 	w.observe()
+	if n := w.unread(); n < len(w.pushed) {
+		w.pushed = w.pushed[len(w.pushed)-n:]
+	}
 	if w.excEnding {
 		if w.pending != nil && w.pending.kind == 'f' {
 			if !predicted {
@@ -697,6 +762,9 @@ func (w *world) fullKey() string {
 	}
 	fmt.Fprintf(&b, "|h%d s%d|", w.expHead, w.storedID)
 	b.WriteString(w.modeKey())
+	for _, it := range w.pushed {
+		fmt.Fprintf(&b, "u%v%d,", it.removed, it.l1)
+	}
 	b.WriteString(strings.Join(w.bufferStrings(), ","))
 	return b.String()
 }
@@ -706,7 +774,7 @@ func (w *world) modeKey() string {
 	if w.pending != nil {
 		fmt.Fprintf(&b, "p%c%d-%d", w.pending.kind, w.pending.from, w.pending.to)
 	}
-	fmt.Fprintf(&b, "r%d q%v c%v s%v x%v%s|", w.retry, w.probeNext, w.catchup, w.subscribed, w.exited, w.exitErr)
+	fmt.Fprintf(&b, "r%d q%v c%v s%v x%v%s n%d|", w.retry, w.probeNext, w.catchup, w.subscribed, w.exited, w.exitErr, w.unread())
 	if w.t0set {
 		fmt.Fprintf(&b, "t%d e%v b%v|", int64(w.now().Sub(w.t0)%pollInterval/quantum), w.inExc, w.tickBuffered())
 	}
@@ -718,8 +786,9 @@ func (w *world) modeKey() string {
 // longer play a role, so the state is projected onto what still can influence client, model or generator:
 //   - L1 numbers relative to ref = block of the highest live log (the base for future logs);
 //   - live logs that are above the finalised height (removable, not yet finalisable), or delivered and not yet
-//     counted by a completed setL1Head, or the highest live log; identified by position, not by id;
-//   - dead-log blocks above ref (the only ones a late removal notice may still name);
+//     counted by a completed setL1Head, or the highest live log, or the highest live log at/below the finalised
+//     height (absolute numbers are kept when there is none); identified by position, not by id;
+//   - dead-log blocks above that floor log (the only ones a late removal notice may ever name again);
 //   - the finalised height, capped at the highest block any remaining item could reach;
 //   - model head / stored head / reflected buffer expressed through those positions;
 //   - remaining item budget, client mode, timer phase.
@@ -744,12 +813,36 @@ func (w *world) canonKey() (string, int64) {
 		f = capF
 	}
 	fmt.Fprintf(&b, "L i%d F%d d%v|", rem, int64(f)-int64(ref), w.lastU && t >= 0 && t == len(w.view)-1)
+	// floor = highest live log at or below the finalised height: it can never be removed, so it is what the generator
+	// falls back to as base for new logs once everything above it has been reorged away. Without such a log the
+	// fallback is L1 block 0 and the absolute position matters (found by selfCheck: merging these was unsound).
+	floor := -1
+	for i := range w.view {
+		r := &w.view[i]
+		if r.alive && r.l1 <= w.F && (floor < 0 || r.l1 >= w.view[floor].l1) {
+			floor = i
+		}
+	}
+	if floor < 0 {
+		fmt.Fprintf(&b, "abs%d|", ref)
+	}
 	pos := map[int]int{}
 	for i := range w.view {
 		r := &w.view[i]
-		if r.alive && (r.l1 > w.F || (r.delivered && !r.consumed) || i == t) {
+		if r.alive && (r.l1 > w.F || (r.delivered && !r.consumed) || i == t || i == floor) {
 			pos[i] = len(pos)
-			fmt.Fprintf(&b, "%d:%v%v,", int64(r.l1)-int64(ref), r.delivered, r.consumed)
+			// status: above the finalised height only "delivered or not" matters; at or below it only "still to be
+			// counted by the next setL1Head" (delivered, not consumed) vs inert (consumed, or never delivered)
+			st := 'i'
+			switch {
+			case r.l1 > w.F && r.delivered:
+				st = 'd'
+			case r.l1 > w.F:
+				st = 'n'
+			case r.delivered && !r.consumed:
+				st = 'p'
+			}
+			fmt.Fprintf(&b, "%d:%c,", int64(r.l1)-int64(ref), st)
 		}
 	}
 	b.WriteString("|D")
@@ -757,9 +850,11 @@ func (w *world) canonKey() (string, int64) {
 	var dead []int
 	for i := range w.view {
 		r := &w.view[i]
-		if !r.alive && r.l1 > ref && !seen[r.l1] {
+		// dead blocks above the floor log: a late notice may name them as soon as no live log sits at/above them,
+		// which can become true again after further removals (found by selfCheck at n=5)
+		if !r.alive && (floor < 0 || r.l1 > w.view[floor].l1) && !seen[r.l1] {
 			seen[r.l1] = true
-			dead = append(dead, int(r.l1-ref))
+			dead = append(dead, int(int64(r.l1)-int64(ref)))
 		}
 	}
 	sort.Ints(dead)
@@ -775,6 +870,9 @@ func (w *world) canonKey() (string, int64) {
 	}
 	fmt.Fprintf(&b, "h%s s%s|", rel(w.expHead), rel(w.storedID))
 	b.WriteString(w.modeKey())
+	for _, it := range w.pushed {
+		fmt.Fprintf(&b, "u%v%d,", it.removed, int64(it.l1)-int64(ref))
+	}
 	buf := w.buffer()
 	var ks []uint64
 	for k := range buf {
@@ -796,6 +894,11 @@ func h16(s string) [16]byte {
 
 // ---------------------------------------------------------------------------------------------------------------
 // one execution of the real client along a path
+
+var (
+	dumpOnce sync.Once
+	dumpF    *os.File
+)
 
 type result struct {
 	key     [16]byte // canonical class
@@ -835,6 +938,7 @@ func replay(t *testing.T, c *config, path []evt) (res result) {
 			l1.WithResubscribeDelay(resubDelay), l1.WithPollFinalisedInterval(pollInterval), l1.WithCatchUpChunkSize(c.chunk))
 		ctx, cancel := context.WithCancel(context.Background())
 		w.done = make(chan error, 1)
+		w.quit = make(chan struct{})
 		go func() { w.done <- w.client.Run(ctx) }()
 		synctest.Wait()
 		w.observe()
@@ -860,6 +964,10 @@ func replay(t *testing.T, c *config, path []evt) (res result) {
 		res.infra = w.infra
 		if res.viol == nil && w.infra == "" {
 			ck, ref := w.canonKey()
+			if d := os.Getenv("VERIF_C17_DUMP"); d != "" { // development aid: canonical keys in clear text
+				dumpOnce.Do(func() { dumpF, _ = os.Create(fmt.Sprintf("%s/keys.%d", d, os.Getpid())) })
+				fmt.Fprintf(dumpF, "%s\t%s %v\n", ck, c, pathStrings(path))
+			}
 			res.key, res.full = h16(ck), h16(w.fullKey())
 			res.enabled = w.enabled()
 			var sig strings.Builder
@@ -883,6 +991,7 @@ func replay(t *testing.T, c *config, path []evt) (res result) {
 		res.depth = len(path)
 		res.script = fmt.Sprintf("%v|%s", c.hist, script.String())
 		cancel()
+		close(w.quit)
 		if !w.exited {
 			<-w.done
 		}
@@ -1095,7 +1204,7 @@ func TestCheck(t *testing.T) {
 			"LatestHeight = highest log block + {0,1}; previous-run head = none or any history log", pollInterval, resubDelay))
 
 	// self-check of the state projection at a smaller bound: same canonical classes whichever key the search merges on
-	sn := ev.Pick(r, 3, 4)
+	sn := ev.Pick(r, 4, 5)
 	if os.Getenv("VERIF_C17_SELFCHECK_N") != "" {
 		fmt.Sscan(os.Getenv("VERIF_C17_SELFCHECK_N"), &sn)
 	}
